@@ -156,7 +156,8 @@ static void snap(void)
     for (int i = 1; i <= P.np; i++) fprintf(out, "%s%llu", i > 1 ? "," : "", (unsigned long long)cmb_resourcepool_held_by_process(pool, proc[i]));
     fprintf(out, "]},\"buf\":{\"level\":%ld,\"space\":%ld,\"exact\":%s},\"amnt\":[", bunits(cmb_buffer_level(buf)),
             P.bufcap < 0 ? -1L : bunits(cmb_buffer_space(buf)), (bexact(cmb_buffer_level(buf)) ? "true" : "false"));
-    for (int i = 1; i <= P.np; i++) fprintf(out, "%s%ld", i > 1 ? "," : "", bunits(amnt[i]));
+    /* the progress slot of a process that has ended inside a buffer call is a dead variable: reported as 0 */
+    for (int i = 1; i <= P.np; i++) fprintf(out, "%s%ld", i > 1 ? "," : "", cmb_process_status(proc[i]) == CMB_PROCESS_RUNNING ? bunits(amnt[i]) : 0L);
     /* object queue contents through the position query */
     fprintf(out, "],\"oq\":{\"len\":%llu,\"space\":%lld,\"pos\":[", (unsigned long long)cmb_objectqueue_length(oq), P.oqcap < 0 ? -1LL : (long long)cmb_objectqueue_space(oq));
     for (int o = 1; o < MAXOBJ; o++) fprintf(out, "%s%llu", o > 1 ? "," : "", (unsigned long long)cmb_objectqueue_position(oq, (void *)(intptr_t)o));
